@@ -9,6 +9,8 @@ Line protocol for the blueprint model.
   place [name=spec,..] [i:j:spec,..]     -> reject | [i:j:name,..]
   consistent NB NH NX NM                 -> T | F
   blocks [names] [heights] [xs] [mesh]   -> reject | [name|h|xs|mesh,..]      (blanks in names written as ~)
+  pinduct [name:D:C:W:op:ip:od:mult,..]   -> skipped|nogap|accept|refuse duct=NAME|none rings=N|-   (HexBlock.verifyBlockDims, blueprint order)
+  numrings N                               -> hexagon.numRingsToHoldNumCells
   mult [i:j:id,..] [ids] DECL|_          -> reject | unset | VALUE            multiplicity learned from a pin lattice
   flags [KNOWN,..] name~with~tildes      -> [FLAG,..]                         Flags.fromStringIgnoreErrors as a list
 Names contain no blanks, commas, brackets, ':', '=', '@' (the harness renames).
@@ -37,6 +39,15 @@ def parseDesign? (s : String) : Option AssemDesign :=
 def parseContent? (s : String) : Option (Cell × String) :=
   match s.splitOn ":" with
   | [i, j, t] => do let i ← i.toInt?; let j ← j.toInt?; pure ((i, j), t)
+  | _ => none
+
+/-- `name:D:C:W:op:ip:od:mult` with D/C/W ∈ {T,F} (blanks in names written as ~) -/
+def parsePComp? (s : String) : Option PComp :=
+  match s.splitOn ":" with
+  | [n, d, c, w, op, ip, od, m] => do
+      let d ← parseBool? d; let c ← parseBool? c; let w ← parseBool? w
+      let op ← parseRat? op; let ip ← parseRat? ip; let od ← parseRat? od; let m ← m.toNat?
+      pure { name := n, duct := d, clad := c, wire := w, op := op, ip := ip, od := od, mult := m }
   | _ => none
 
 def answer : List String → String
@@ -86,6 +97,15 @@ def answer : List String → String
       match parseList? some known with
       | some known => showList id ((flagsOfName known (name.replace "~" " ")).mergeSort (fun a b => decide (a ≤ b)))
       | none => "bad-op"
+  | ["pinduct", cs] => match parseList? parsePComp? cs with
+      | some cs =>
+        let v := match verifyBlockDims cs with
+          | .skipped => "skipped" | .nogap => "nogap" | .accept => "accept" | .refuse => "refuse"
+        let d := match firstMin (cs.filter (·.duct)) with | some d => d.name | none => "none"
+        let r := match getOne (·.clad) cs with | some (some c) => toString (numRings c.mult) | _ => "-"
+        v ++ " duct=" ++ d ++ " rings=" ++ r
+      | none => "bad-op"
+  | ["numrings", n] => match n.toNat? with | some n => toString (numRings n) | none => "bad-op"
   | _ => "bad-op"
 
 def main : IO Unit := loop answer
